@@ -118,8 +118,8 @@ Proof. exact (all_programs_are_acyclic GenScalar.G). Qed.
 Print Assumptions C01_all_programs_are_acyclic.
 
 (* the invariant behind it, at every point of every program: the store only grows, by entries under fresh
-   ids whose operands are older *)
-Theorem C01_tracing_is_acyclic : forall fuel ρ ss s ρ' s',
-  InvA ρ s -> exec GenScalar.G fuel ρ ss s = Ok (ρ', s') -> InvA ρ' s' /\ grow_acy s s'.
-Proof. exact (exec_acyclic GenScalar.G). Qed.
+   ids whose operands are older (and, for a trace started at counter lo, newer than lo) *)
+Theorem C01_tracing_is_acyclic : forall lo fuel ρ ss s ρ' s',
+  InvA lo ρ s -> exec GenScalar.G fuel ρ ss s = Ok (ρ', s') -> InvA lo ρ' s' /\ grow_acy lo s s'.
+Proof. intro lo. exact (exec_acyclic lo GenScalar.G). Qed.
 Print Assumptions C01_tracing_is_acyclic.
